@@ -60,6 +60,8 @@ def check(c: Check):
     clause_d(c)
     clause_e(c)
     clause_f(c)
+    from .common import sweep_records
+    sweep_records(c, 'C20-rec', ['exactly_lib.help.contents_structure', 'exactly_lib.definitions.cross_ref', 'exactly_lib.common.help'], floor=8)
 
 
 def _table_entries(c: Check, modname: str, var: str):
